@@ -86,21 +86,53 @@ func parsePlan(s string) []planItem {
 
 type tools struct {
 	root, bin, trap, repo, self string
+	gitFn                       bool // the script wraps git in a shell function
 }
+
+// gitBin: the real git (the sandbox PATH starts with shims)
+var gitBin = func() string {
+	if g := os.Getenv("VH_GIT"); g != "" {
+		return g
+	}
+	g, err := exec.LookPath("git")
+	if err != nil {
+		return "git"
+	}
+	return g
+}()
 
 const trapText = `case "$0" in */newpolicy.sh) ;; *) return 0 ;; esac
 set -T
 __vh_n=0
-trap 'if [ "$BASH_SUBSHELL" = 0 ]; then __vh_n=$((__vh_n+1)); echo "$__vh_n:$LINENO:$EPOCHREALTIME:$BASH_COMMAND" >>"$VH_TRACE"; if [ -x "$VH_HOOKS/$__vh_n" ]; then "$VH_HOOKS/$__vh_n" $$ 9>&- >>"$VH_TRACE.hook" 2>&1; fi; fi' DEBUG
+trap 'if [ "$BASH_SUBSHELL" = 0 ]; then __vh_n=$((__vh_n+1)); echo "$__vh_n:$LINENO:$EPOCHREALTIME:$BASH_COMMAND" >>"$VH_TRACE"; if [ -x "$VH_HOOKS/$__vh_n" ]; then "$VH_HOOKS/$__vh_n" $$ "$BASH_COMMAND" 9>&- >>"$VH_TRACE.hook" 2>&1; fi; fi' DEBUG
 `
 
 const stubNetspoc = `#!/bin/sh
-# stub compiler: netspoc SRC CODE -- succeeds iff SRC has no file BAD; the stamp records what was compiled
+# stub compiler: netspoc SRC CODE -- succeeds iff SRC has no file BAD; writes one code file per
+# "router:NAME = …;" line of SRC/topology (like the real compiler: one file per device) and a stamp
+# that records what was compiled
+if [ -n "$VH_ORPHAN" ] && [ -e "$VH_ORPHAN" ]; then . "$VH_TOOLS/orphan.sh"; fi
 mkdir -p "$2"
+rm -f "$2/COMPILED"
 if [ -e "$1/BAD" ]; then echo "Error: BAD"; echo Aborted; exit 1; fi
+sed -n 's/^router:\([A-Za-z0-9_]*\) .*/\1/p' "$1/topology" | while read r; do
+  grep "^router:$r " "$1/topology" > "$2/$r"
+done
 cat "$1/topology" > "$2/COMPILED"
 exit 0
 `
+
+// orphanSh is sourced by the shims of the commands that run as a child of the script when the
+// marker file exists: kill the script (NOT this child), optionally let a second invocation run
+// while this child is still alive, then go on with the real command.
+const orphanSh = `read VHP VHT VHK VHN < "$VH_ORPHAN"
+REAL_RM -f "$VH_ORPHAN"
+kill -9 "$VHP"
+if [ "$VHN" = 1 ]; then "$VH_BIN" hook "$VH_SB" "$VHT" "$VHK" 0 "-" n >>"$VH_SB/orphan.log" 2>&1; fi
+`
+
+// commands of the script that run as child processes of the main shell
+var shimmed = []string{"git", "mv", "rm", "ln", "mkdir", "touch", "flock"}
 
 const stubMail = `#!/bin/sh
 { echo mail "$@"; cat; echo --END--; } >> "$HOME/../mail"
@@ -124,6 +156,21 @@ func setupTools(ctx *Ctx) (*tools, error) {
 	os.WriteFile(filepath.Join(t.bin, "netspoc"), []byte(stubNetspoc), 0755)
 	os.WriteFile(filepath.Join(t.bin, "mail"), []byte(stubMail), 0755)
 	os.WriteFile(filepath.Join(t.bin, "sudo"), []byte(stubSudo), 0755)
+	realRm, _ := exec.LookPath("rm")
+	os.WriteFile(filepath.Join(t.root, "orphan.sh"), []byte(strings.ReplaceAll(orphanSh, "REAL_RM", realRm)), 0644)
+	for _, c := range shimmed {
+		real, err := exec.LookPath(c)
+		if err != nil {
+			return t, fmt.Errorf("no %s in PATH", c)
+		}
+		shim := fmt.Sprintf("#!/bin/sh\nif [ -n \"$VH_ORPHAN\" ] && [ -e \"$VH_ORPHAN\" ]; then . \"$VH_TOOLS/orphan.sh\"; fi\nexec %s \"$@\"\n", real)
+		os.MkdirAll(filepath.Join(t.root, "shims"), 0755)
+		os.WriteFile(filepath.Join(t.root, "shims", c), []byte(shim), 0755)
+	}
+	if src, err := os.ReadFile(filepath.Join(ctx.Repo, "bin", "newpolicy.sh")); err == nil &&
+		regexp.MustCompile(`(?m)^\s*git\s*\(\)`).Match(src) {
+		t.gitFn = true
+	}
 	cmd := exec.Command("go", "build", "-o", filepath.Join(t.bin, "get-netspoc-approve-conf"), "./cmd/get-netspoc-approve-conf")
 	cmd.Dir = filepath.Join(ctx.Repo, "go")
 	if out, err := cmd.CombinedOutput(); err != nil {
@@ -145,13 +192,14 @@ func (sb *sandbox) env(extra ...string) []string {
 		"HOME=" + filepath.Join(sb.dir, "home"),
 		"PATH=" + sb.t.bin + ":" + filepath.Join(sb.t.repo, "bin") + ":/usr/local/bin:/usr/bin:/bin",
 		"GIT_CONFIG_NOSYSTEM=1", "LC_ALL=C", "LANG=C", "TZ=UTC",
-		"VH_BIN=" + sb.t.self, "VH_SB=" + sb.dir, "VH_TOOLS=" + sb.t.root, "VH_REPO=" + sb.t.repo,
+		"VH_BIN=" + sb.t.self, "VH_SB=" + sb.dir, "VH_TOOLS=" + sb.t.root, "VH_REPO=" + sb.t.repo, "VH_GIT=" + gitBin,
+		"VH_GITFN=" + b2s(sb.t.gitFn), "VH_ORPHAN=" + filepath.Join(sb.dir, "orphan.marker"),
 	}
 	return append(e, extra...)
 }
 
 func gitIn(dir string, env []string, args ...string) (string, error) {
-	cmd := exec.Command("git", args...)
+	cmd := exec.Command(gitBin, args...)
 	cmd.Dir = dir
 	cmd.Env = env
 	out, err := cmd.CombinedOutput()
@@ -249,7 +297,7 @@ func buildSandbox(t *tools, name string, sysEmail bool) (*sandbox, error) {
 	}
 	gitIn(work, env, "config", "user.name", "Test User")
 	gitIn(work, env, "config", "user.email", "user@example.com")
-	os.WriteFile(filepath.Join(work, "topology"), []byte("network:n1 = { ip = 10.1.1.0/24; }\n"), 0644)
+	os.WriteFile(filepath.Join(work, "topology"), []byte("network:n1 = { ip = 10.1.1.0/24; }\nrouter:base = { managed; }\nrouter:u0 = { v0; }\n"), 0644)
 	gitIn(work, env, "add", "-A")
 	if out, err := gitIn(work, env, "commit", "--quiet", "-m", "initial"); err != nil {
 		return sb, fmt.Errorf("git commit: %v %s", err, out)
@@ -266,9 +314,10 @@ func userCommit(sbDir string, env []string, good bool, pol string, email bool) e
 	if out, err := gitIn(work, env, "pull", "--quiet", "--ff-only"); err != nil {
 		return fmt.Errorf("user pull: %v %s", err, out)
 	}
-	f, _ := os.OpenFile(filepath.Join(work, "topology"), os.O_APPEND|os.O_WRONLY, 0644)
-	f.WriteString("# change\n")
-	f.Close()
+	// every revision has a device of its own: the previous one disappears, a new one appears
+	n, _ := gitIn(work, env, "rev-list", "--count", "HEAD")
+	os.WriteFile(filepath.Join(work, "topology"),
+		[]byte(fmt.Sprintf("network:n1 = { ip = 10.1.1.0/24; }\nrouter:base = { managed; }\nrouter:u%s = { v%s; }\n", n, n)), 0644)
 	bad := filepath.Join(work, "BAD")
 	if good {
 		os.Remove(bad)
@@ -293,12 +342,13 @@ func userCommit(sbDir string, env []string, good bool, pol string, email bool) e
 }
 
 type runInfo struct {
-	Exit    string    // "0", "1", "killed", "timeout", …
-	Lines   []string  // LINENO of every main-shell command, in order
-	Cmds    []string  // BASH_COMMAND
-	Times   []float64 // EPOCHREALTIME
-	Nested  []*runInfo
-	Wrapper string // stderr of bin/newpolicy if the run went through the wrapper
+	Exit      string    // "0", "1", "killed", "timeout", …
+	Lines     []string  // LINENO of every main-shell command, in order
+	Cmds      []string  // BASH_COMMAND
+	Times     []float64 // EPOCHREALTIME
+	Nested    []*runInfo
+	Wrapper   string // stderr of bin/newpolicy if the run went through the wrapper
+	OrphanRan bool   // killed while the child of its last logged command ran; that command was completed by the orphan
 }
 
 func (r *runInfo) show() string {
@@ -335,7 +385,7 @@ func startScript(t *tools, sbDir string, env []string, tag string, plan []planIt
 		byK[it.K] = append(byK[it.K], it.Act)
 	}
 	for k, acts := range byK {
-		body := fmt.Sprintf("#!/bin/sh\nexec \"$VH_BIN\" hook \"$VH_SB\" %s %d \"$1\" %s\n", tag, k, strings.Join(acts, " "))
+		body := fmt.Sprintf("#!/bin/sh\nexec \"$VH_BIN\" hook \"$VH_SB\" %s %d \"$1\" \"$2\" %s\n", tag, k, strings.Join(acts, " "))
 		os.WriteFile(filepath.Join(hooks, strconv.Itoa(k)), []byte(body), 0755)
 	}
 	trace := filepath.Join(sbDir, "trace."+tag)
@@ -349,6 +399,17 @@ func startScript(t *tools, sbDir string, env []string, tag string, plan []planIt
 	}
 	cmd.Dir = sbDir
 	cmd.Env = append(env, "BASH_ENV="+t.trap, "VH_TRACE="+trace, "VH_HOOKS="+hooks)
+	for _, it := range plan {
+		if it.Act == "O" || it.Act == "On" {
+			// only runs that may be killed inside a child need the shims (one more process per command)
+			for i, e := range cmd.Env {
+				if strings.HasPrefix(e, "PATH=") {
+					cmd.Env[i] = "PATH=" + filepath.Join(t.root, "shims") + ":" + e[5:]
+				}
+			}
+			break
+		}
+	}
 	var errb bytes.Buffer
 	cmd.Stderr = &errb
 	cmd.Stdout = &errb
@@ -398,7 +459,7 @@ func collect(sbDir, tag string, exit string, plan []planItem) *runInfo {
 	sort.SliceStable(plan, func(i, j int) bool { return plan[i].K < plan[j].K })
 	idxOf := map[int]int{} // numbering restarts in every hook call (one per k)
 	for _, it := range plan {
-		if strings.HasPrefix(it.Act, "n") {
+		if strings.HasPrefix(it.Act, "n") || it.Act == "On" {
 			ntag := fmt.Sprintf("%s.n%d.%d", tag, it.K, idxOf[it.K])
 			idxOf[it.K]++
 			data, err := os.ReadFile(filepath.Join(sbDir, "result."+ntag))
@@ -431,12 +492,13 @@ func (sb *sandbox) run(plan []planItem, wrapper bool) *runInfo {
 
 // hookMain runs inside the sandboxed script's DEBUG trap: vh-c19 hook <sandbox> <tag> <k> <pid> act…
 func hookMain(args []string) int {
-	if len(args) < 4 {
+	if len(args) < 5 {
 		return 2
 	}
-	sbDir, tag, k, pidS := args[0], args[1], args[2], args[3]
+	sbDir, tag, k, pidS, cmdText := args[0], args[1], args[2], args[3], args[4]
+	args = append(args[:4:4], args[5:]...)
 	pid, _ := strconv.Atoi(pidS)
-	t := &tools{root: os.Getenv("VH_TOOLS"), repo: os.Getenv("VH_REPO"), self: os.Getenv("VH_BIN")}
+	t := &tools{root: os.Getenv("VH_TOOLS"), repo: os.Getenv("VH_REPO"), self: os.Getenv("VH_BIN"), gitFn: os.Getenv("VH_GITFN") == "1"}
 	t.bin = filepath.Join(t.root, "tools")
 	t.trap = filepath.Join(t.root, "trap.sh")
 	sb := &sandbox{t: t, dir: sbDir}
@@ -446,6 +508,15 @@ func hookMain(args []string) int {
 		switch {
 		case act == "K":
 			syscall.Kill(pid, syscall.SIGKILL)
+			return 0
+		case act == "O" || act == "On":
+			// kill the script while the child process of its next command runs: possible only for
+			// commands that have a child; the shim of that command does it (marker file)
+			if !isExternal(cmdText, t.gitFn) {
+				syscall.Kill(pid, syscall.SIGKILL)
+				return 0
+			}
+			os.WriteFile(os.Getenv("VH_ORPHAN"), []byte(fmt.Sprintf("%d %s %s %s\n", pid, tag, k, b2s(act == "On"))), 0644)
 			return 0
 		case act == "cg" || act == "cb":
 			if err := userCommit(sbDir, env, act == "cg", "", true); err != nil {
@@ -470,6 +541,23 @@ func hookMain(args []string) int {
 	return 0
 }
 
+// isExternal: does this main-shell command run as a child process (text as bash reports it)?
+func isExternal(cmd string, gitFn bool) bool {
+	f := strings.Fields(cmd)
+	if len(f) == 0 {
+		return false
+	}
+	switch f[0] {
+	case "netspoc", "mv", "rm", "ln", "mkdir", "touch", "flock":
+		return true
+	case "git":
+		return !gitFn && len(f) > 1 && f[1] != "log"
+	case "command":
+		return len(f) > 2 && f[1] == "git" && f[2] != "log"
+	}
+	return false
+}
+
 // ---------------------------------------------------------------------------- observation
 
 type dirObs struct {
@@ -481,6 +569,7 @@ type dirObs struct {
 	SrcGood  bool // no file BAD in the tree of HEAD
 	HasStamp bool
 	StampOK  bool // the compile stamp was made from the `topology` file of HEAD's tree
+	CodeOK   bool // … and the code files are exactly the devices of that tree
 }
 
 type obs struct {
@@ -592,11 +681,39 @@ func (sb *sandbox) observeDir(path string, remote string) (d dirObs, hasSrc bool
 	if d.HasStamp && hasSrc {
 		if top, err := gitIn(src, sb.env(), "show", "HEAD:topology"); err == nil {
 			d.StampOK = strings.TrimSpace(string(stamp)) == top
+			d.CodeOK = d.StampOK && codeFilesMatch(filepath.Join(path, "code"), top)
 		}
 	}
 	_, err = os.Stat(filepath.Join(path, "next"))
 	d.Nested = err == nil
 	return
+}
+
+// codeFilesMatch: the files below code/ (but the stamp and the .prev link) are exactly one per
+// router of the topology, each with that router's line.
+func codeFilesMatch(code, topology string) bool {
+	want := map[string]string{}
+	for _, l := range strings.Split(topology, "\n") {
+		if m := regexp.MustCompile(`^router:([A-Za-z0-9_]+) `).FindStringSubmatch(l); m != nil {
+			want[m[1]] = l
+		}
+	}
+	ents, err := os.ReadDir(code)
+	if err != nil {
+		return false
+	}
+	n := 0
+	for _, e := range ents {
+		if e.Name() == "COMPILED" || e.Name() == ".prev" {
+			continue
+		}
+		data, _ := os.ReadFile(filepath.Join(code, e.Name()))
+		if w, ok := want[e.Name()]; !ok || strings.TrimSpace(string(data)) != w {
+			return false
+		}
+		n++
+	}
+	return n == len(want)
 }
 
 func (sb *sandbox) observe() *obs {
@@ -685,7 +802,7 @@ func (o *obs) show() string {
 	}
 	var ds []string
 	for _, d := range o.Dirs {
-		ds = append(ds, fmt.Sprintf("%d:%s:%s:%s:%s", d.N, b2s(d.Built), d.HeadPol, b2s(d.HeadIsR), b2s(d.Nested)))
+		ds = append(ds, fmt.Sprintf("%d:%s:%s:%s:%s:%s", d.N, b2s(d.Built), d.HeadPol, b2s(d.HeadIsR), b2s(d.Built && d.CodeOK), b2s(d.Nested)))
 	}
 	return fmt.Sprintf("cur=%s next=%s failed=%s dirs=%s remote=%s/%s/%s/%s lock=%s", o.Cur, nx, b2s(o.Failed),
 		strings.Join(ds, ","), b2s(o.Remote.Good), o.Remote.Pol, o.Remote.Kind, b2s(o.Remote.Email), b2s(o.Lock))
@@ -714,8 +831,30 @@ func classifyKill(r *runInfo) string {
 	if r == nil || r.Exit != "killed" || len(r.Cmds) == 0 {
 		return ""
 	}
-	// the last logged command is the one that did NOT run
+	// the last logged command is the one that did NOT run -- unless the script was killed while
+	// the child of that command was running (the child finished it)
 	done := r.Cmds[:len(r.Cmds)-1]
+	if r.OrphanRan {
+		done = r.Cmds
+	}
+	// a script that wraps git in a shell function reports `git X` (call, function entry) and then
+	// `command git X …`: only the last one is the command
+	wrapped := false
+	for _, c := range r.Cmds {
+		if strings.HasPrefix(c, "command git ") {
+			wrapped = true
+		}
+	}
+	if wrapped {
+		var d2 []string
+		for _, c := range done {
+			if strings.HasPrefix(c, "git ") {
+				continue
+			}
+			d2 = append(d2, strings.TrimPrefix(c, "command "))
+		}
+		done = d2
+	}
 	last := func(prefix string) int {
 		for i := len(done) - 1; i >= 0; i-- {
 			if strings.HasPrefix(done[i], prefix) {
@@ -749,6 +888,16 @@ func (os_ *oracleState) check(o *obs, before *obs, ev string, r *runInfo, staleB
 		}
 		if !ok {
 			fs = append(fs, finding{"current_not_compiled", "current -> p" + o.Cur + " which is not a directory with a compile stamp and a good source"})
+		}
+	}
+	// 1b. the code of the current policy was produced by ITS OWN successful compile from ITS OWN src:
+	// exactly one code file per device of HEAD's topology, nothing left over from another compile
+	if o.Cur != "-" {
+		for _, d := range o.Dirs {
+			if strconv.Itoa(d.N) == o.Cur && d.HasStamp && !d.CodeOK {
+				fs = append(fs, finding{"current_code_not_from_own_compile",
+					"the code below current -> p" + o.Cur + " is not what a compile of its own src produces (stamp or device files of another revision)"})
+			}
 		}
 	}
 	// 2./3. a change of current goes to a compiled good tree with a strictly larger number
@@ -864,6 +1013,10 @@ func runScenario(t *tools, name string, sc scenario, drv *Nadrv) *caseResult {
 			cr.counts["run-exit:"+r.Exit]++
 			racePush = false
 			for _, it := range plan {
+				if (it.Act == "O" || it.Act == "On") && it.K == len(r.Lines) && isExternal(r.Cmds[it.K-1], t.gitFn) {
+					r.OrphanRan = true
+					cr.counts["orphan-finished-command"]++
+				}
 				if it.K <= len(r.Lines) {
 					cr.fired++
 					cr.counts["action-fired:"+strings.TrimRight(it.Act, "0123456789")]++
@@ -1052,10 +1205,14 @@ func genRun(rng *RNG) string {
 	case x < 80:
 		k := genK(rng)
 		return fmt.Sprintf("r:%d=%s,%d=K", k, Pick(rng, []string{"cg", "cb"}), k+1+rng.Intn(12))
-	case x < 92:
+	case x < 88:
 		return fmt.Sprintf("r:%d=n", genK(rng))
-	default:
+	case x < 92:
 		return fmt.Sprintf("r:%d=nK%d", genK(rng), genK(rng))
+	case x < 96:
+		return fmt.Sprintf("r:%d=O", genK(rng))
+	default:
+		return fmt.Sprintf("r:%d=On", genK(rng))
 	}
 }
 
@@ -1078,6 +1235,13 @@ func genScenario(rng *RNG, maxLen int) scenario {
 }
 
 var corpus = []scenario{
+	// leftover code of a killed run must not end up in the next policy: killed after the compile (40 = netspoc is
+	// the 38th command of a second run), next commit has other devices
+	{Kind: "seq", Events: []string{"r:", "c:g:-:1", "r:42=K", "c:g:-:1", "r:", "r:"}},
+	// the script is killed while the compiler / git push runs; a second invocation before the child has ended
+	{Kind: "seq", Events: []string{"r:", "c:g:-:1", "r:38=On", "r:", "c:g:-:1", "r:"}},
+	{Kind: "seq", Events: []string{"r:", "c:g:-:1", "r:47=On", "r:", "r:"}},
+	{Kind: "seq", Events: []string{"r:", "c:g:-:1", "r:38=O", "r:", "c:g:-:1", "r:"}},
 	// F-C19: killed between push and promotion (second run: 47 = git push, 48 = git reset, 50 = mv, 51 = rm, 52 = ln)
 	{Kind: "seq", Events: []string{"r:", "c:g:-:1", "r:49=K", "r:", "r:"}},
 	// killed during the compile
@@ -1123,6 +1287,11 @@ func runC19(ctx *Ctx) *Result {
 	drv := ctx.StartNadrv("c19")
 	defer drv.Close()
 
+	if u := drv.Ask("?understood"); u != "1" {
+		modelStale = true
+		res.Notes = append(res.Notes, "shgen did not understand the script ("+strings.TrimPrefix(u, "0 ")+
+			"): the model is the last understood program and is NOT compared; the oracle on the real tree runs alone")
+	}
 	if ctx.Replay != "" {
 		var sc scenario
 		if err := ReadReplay(ctx.Replay, &sc); err != nil {
@@ -1172,6 +1341,16 @@ func runC19(ctx *Ctx) *Result {
 					evs2 := append(append([]string{}, b...), fmt.Sprintf("r:%d=n", k), "r:")
 					scs = append(scs, scenario{Kind: "seq", SysEmail: se, Events: evs2})
 				}
+				// the script is killed while the child of its k-th command runs (the child lives on and
+				// keeps the lock), without / with a second invocation before the child has finished
+				if ctx.Thorough() || k%4 == 1 {
+					evs3 := append(append([]string{}, b...), fmt.Sprintf("r:%d=O", k), "r:")
+					scs = append(scs, scenario{Kind: "seq", SysEmail: se, Events: evs3})
+				}
+				if ctx.Thorough() || k%4 == 3 {
+					evs4 := append(append([]string{}, b...), fmt.Sprintf("r:%d=On", k), "r:", "c:g:-:1", "r:")
+					scs = append(scs, scenario{Kind: "seq", SysEmail: se, Events: evs4})
+				}
 			}
 			if ctx.Thorough() && !se && probeNo <= 2 {
 				// commit before k1, kill before k2, for k1 around commit..push and every later k2
@@ -1215,7 +1394,7 @@ func runC19(ctx *Ctx) *Result {
 			}
 		}()
 	}
-	deadline := time.Now().Add(time.Duration(ctx.N(45, 840)) * time.Second)
+	deadline := time.Now().Add(time.Duration(ctx.N(45, 720)) * time.Second)
 	skipped := 0
 	for i := range scs {
 		if time.Now().After(deadline) {
@@ -1239,6 +1418,9 @@ func runC19(ctx *Ctx) *Result {
 	return res
 }
 
+// modelStale: the driver runs a program that is not the translation of the script under test
+var modelStale bool
+
 func record(res *Result, cr *caseResult) {
 	sc := cr.sc
 	if cr.err != "" {
@@ -1261,10 +1443,12 @@ func record(res *Result, cr *caseResult) {
 	res.Count(fmt.Sprintf("events:%02d", len(sc.Events)))
 	implS := strings.Join(cr.impl, ";")
 	model := cr.model
-	if sc.Kind == "seq" && implS != model {
+	if modelStale {
+		res.Count("model-not-compared")
+	} else if sc.Kind == "seq" && implS != model {
 		res.Disagree("c19 exit status, line trace and tree per event", sc, firstDiff(cr.impl, strings.Split(model, ";")), model)
 	}
-	if sc.Kind == "par" && len(cr.impl) > 0 {
+	if !modelStale && sc.Kind == "par" && len(cr.impl) > 0 {
 		// model = the events followed by ONE undisturbed run: the tree after the parallel start
 		// must be the tree after that run
 		ms := strings.Split(model, ";")
